@@ -22,7 +22,7 @@ class NotReady(Exception):
 
 class Ref:
   def __init__(self, prog, store, strings, range_bound=3, depths=None, macros=(),
-               compaction=True, default_depth=8):
+               compaction=True, default_depth=8, list_nothing='null'):
     self.prog = prog
     self.store = store
     self.strings = strings
@@ -35,6 +35,7 @@ class Ref:
     self.macros = set(macros)
     self.fresh = itertools.count()
     self.compaction = compaction
+    self.list_nothing = list_nothing   # 'null' (documented) | 'empty' (known SQLite deviation)
     self.sccs = self._sccs()
     self.iteration_trace = {}
 
@@ -188,7 +189,8 @@ class Ref:
       return V.agg_count_distinct(ms)
     if op == 'List':
       l = V.agg_list(ms)
-      l.null = NOT(OR(*[g for g, _ in ms]))   # docs: aggregating nothing gives null
+      if self.list_nothing == 'null':
+        l.null = NOT(OR(*[g for g, _ in ms]))   # docs: aggregating nothing gives null
       return l
     if op == 'Set':
       return V.agg_set(ms)
